@@ -118,7 +118,7 @@ THEOREMS = ["ElfioVerif.C02.layouts_eq_spec", "ElfioVerif.C02.shdr_fields_eq_spe
             "ElfioVerif.ComposeTables.array_reports_spec", "ElfioVerif.ComposeTables.versym_reports_spec",
             "ElfioVerif.ComposeTables.tq_relGet_eq", "ElfioVerif.ComposeTables.tq_reports_spec"]
 EXTRA_IMPORTS = ["ElfioVerif.Props.Compose", "ElfioVerif.Props.ComposeTables"]
-SITES = ["conv", "is_sect_in_seg", "load_s", "sec32_load", "sec64_load", "seg32_load", "seg64_load"]
+SITES = ["conv", "is_sect_in_seg", "load_s", "sec32_load", "sec64_load", "seg32_load", "seg64_load", "seg32_range", "seg64_range"]
 RULE = ("well-formed images from the independent encoder tools/elfspec.py (random models: 1-9 sections, 0-4 "
         "segments, full-width field values, arbitrary table placement/order/gaps, overlapping segments, entry "
         "sizes >= record size) x {ELF32,ELF64} x {LSB,MSB} x {eager,lazy} x {string,file stream}; plus the bundled "
